@@ -361,12 +361,12 @@ Definition pw_history : list vc_block :=
     pw_blk 4 [TxContribute 1 1 true 2; TxContribute 1 1 true 2; TxContribute 9 9 true 2; TxContribute 2 2 true 5; TxWait 1] pw_ok;
     pw_blk 5 [TxContribute 2 2 true 2] pw_ok;                                                    (* -> Share at 5 *)
     pw_blk 6 [] pw_ok; pw_blk 7 [] pw_ok;                                                         (* -> Publish at 7 *)
-    pw_blk 8 [TxShare 1 true true [SoSign true; SoNil]; TxShare 1 true true [SoSign true; SoNil]; TxShare 2 true true [SoSign false; SoSign true]] pw_ok;
+    pw_blk 8 [TxShare 1 true true [SoSign true; SoShare true true]; TxShare 1 true true [SoSign true; SoSign true]; TxShare 2 true true [SoSign false; SoSign true]; TxShare 9 true false [SoSign true; SoSign true]] pw_ok;
     pw_blk 9 [] pw_bad ].                                                                         (* moveToWait fails: restart *)
 
 Lemma pw_history_result :
   let '(s, l) := pw_run {| vs_pn := None; vs_dk := dk_cleared |} pw_history in
   map snd l = [PSaved; PSaved; PSaved; PSaved; PSaved; PSaved; PSaved; PSaved; PSaved] /\
-  map fst l = [[]; [DReject]; []; [DAccept; DReject; DReject; DReject; DReject]; [DAccept]; []; []; [DAccept; DReject; DReject]; []] /\
+  map fst l = [[]; [DReject]; []; [DAccept; DReject; DReject; DReject; DReject]; [DAccept]; []; []; [DAccept; DReject; DReject; DReject]; []] /\
   vs_pn s = Some {| pn_phase := 0; pn_start := 9; pn_current := 9; pn_restarts := 1 |} /\ vs_dk s = dk_cleared.
 Proof. vm_compute. repeat split. Qed.
